@@ -191,6 +191,26 @@ class Interp2(Interp):
         Extract(Extract(s, o, l), a, b) = Extract(s, o + a, b) when [a, a+b) lies
         inside the inner slice (guaranteed by the clamping of python slices)."""
         t = self.rw(t)
+        # peel leading pieces of a concatenation whose lengths are syntactically known
+        sc0 = self.unique_const(start)
+        if sc0 is not None and sc0 > 0 and z3.is_app(t) and t.decl().kind() == z3.Z3_OP_SEQ_CONCAT:
+            parts = self.flat_concat(t)
+            k = 0
+            while k < len(parts) and sc0 > 0:
+                ln = self.syntactic_len(parts[k])
+                if ln is None or ln > sc0:
+                    break
+                sc0 -= ln
+                k += 1
+            if k > 0:
+                restp = parts[k:]
+                nt = self.mk_concat(restp) if restp else z3.Empty(t.sort())
+                dropped = self.unique_const(start) - sc0
+                nl = self.rw(length)
+                # length was computed against the original term: adjust when it is `len(t) - start`
+                if self.entails(length == z3.Length(t) - start, 800):
+                    nl = self.rw(z3.Length(nt) - sc0)
+                return self.mk_extract(nt, z3.IntVal(sc0), nl)
         if z3.is_app(t) and t.decl().kind() == z3.Z3_OP_SEQ_EXTRACT:
             base, o, l = t.arg(0), t.arg(1), t.arg(2)
             if self.entails(z3.And(o >= 0, start >= 0, length >= 0, start + length <= l,
@@ -201,6 +221,33 @@ class Interp2(Interp):
         if sc == 0 and lc is None and self.entails(length == z3.Length(t), 800):
             return t
         return self.rw(z3.Extract(t, start, length))
+
+    def flat_concat(self, t):
+        if z3.is_app(t) and t.decl().kind() == z3.Z3_OP_SEQ_CONCAT:
+            out = []
+            for c in t.children():
+                out.extend(self.flat_concat(c))
+            return out
+        return [t]
+
+    def syntactic_len(self, p):
+        if not z3.is_app(p):
+            return None
+        k = p.decl().kind()
+        if k == z3.Z3_OP_SEQ_UNIT:
+            return 1
+        if k == z3.Z3_OP_SEQ_EMPTY:
+            return 0
+        nm = p.decl().name()
+        import re as _re
+        m = _re.fullmatch(r'(le|be)(\d+)', nm)
+        if m:
+            return int(m.group(2))
+        if nm in ('sha256',):
+            return 32
+        if nm in ('ripemd160', 'sha1'):
+            return 20
+        return None
 
     def mk_nth(self, t, pos):
         t = self.rw(t)
